@@ -1406,7 +1406,7 @@ def symplectic_pieces(ctx):
 # =====================================================================================================
 
 def run(ctx):
-    gen(ctx)
+    ctx.guard("regenerate", gen, ctx)
     ok = ctx.lean_build(PROPS)
     if ok:
         ctx.lean_audit(PROPS, SRC)
@@ -1417,7 +1417,7 @@ def run(ctx):
             ctx.log("twin trace differs:", name)
     for phase in (corr_poly, corr_fixed_model, rhs_numerics, evaluability, transcripts, differential, symplectic_pieces):
         t0 = time.time()
-        phase(ctx)
+        ctx.guard(phase.__name__, phase, ctx)
         ctx.log("%s done in %.1fs" % (phase.__name__, time.time() - t0))
     ctx.search_ran = True
     ctx.rule = ("exact: integer/Gaussian-integer polynomials of degree <= 8 x dyadic states (distinct by polynomial, variable, state); "
